@@ -231,7 +231,28 @@ func registryFacts(s *src, f *facts) {
 	idAssign := first(allShallow(sb, func(a *ast.AssignStmt) bool {
 		return len(a.Lhs) == 1 && s.str(a.Lhs[0]) == "remoteID" && (s.str(a.Rhs[0]) == "uuid.NewString()" || s.str(a.Rhs[0]) == "uuid.New().String()")
 	}))
-	f.b("rgPerLinkRemoteId", idAssign != nil, s.pos(idAssign))
+	// …and that is the ONLY source of the identifier: one of the goroutine's own statements, no other assignment to it
+	// (an id taken from the link context when it carries one is not fresh: a link opened from inside a handler of
+	// another link would take over that link's identifier)
+	idOnly := idAssign != nil && sb != nil
+	if idOnly {
+		direct := false
+		for _, st := range sb.List {
+			if ast.Node(st) == ast.Node(idAssign) {
+				direct = true
+			}
+		}
+		n := 0
+		for _, a := range all[*ast.AssignStmt](sb, nil) {
+			for _, l := range a.Lhs {
+				if s.str(l) == "remoteID" {
+					n++
+				}
+			}
+		}
+		idOnly = direct && n == 1
+	}
+	f.b("rgPerLinkRemoteId", idOnly, s.pos(idAssign))
 	li := s.heldAt(sb, "r.remotesLock")
 	ins := first(allShallow(sb, func(a *ast.AssignStmt) bool { return len(a.Lhs) == 1 && s.str(a.Lhs[0]) == "r.remotes[remoteID]" }))
 	hookCall := func(root ast.Node, recv, name string) *ast.CallExpr {
